@@ -283,6 +283,9 @@ class Executor:
 
     def read_attr(self, st: State, ref: Ref, attr: str, node=None):
         key = (id(ref.obj), attr)
+        tr = getattr(self.ctx, "track_reads", None)
+        if tr is not None and tr[0] == id(ref.obj):
+            tr[1].add(attr)
         if st.log is not None and key not in st.log.heap_writes:
             st.log.heap_reads_before_write.add(key)
         if key in st.heap:
@@ -792,6 +795,11 @@ class Executor:
         self.unsupported(node, "equality of symbolic-length sequences")
 
     def contains(self, container, item, st, node=None):
+        from .values import NumStr
+        if isinstance(container, NumStr):
+            if isinstance(item, str) and item and not any(ch.isdigit() or ch in "+-.eE" for ch in item):
+                return False      # a plain numeral contains no spaces / letters other than an exponent marker
+            self.unsupported(node, f"'in' test on abstract numeral text with {item!r}")
         if isinstance(container, (str,)):
             if is_sym(item):
                 self.unsupported(node, "symbolic 'in' str")
@@ -802,6 +810,12 @@ class Executor:
             return item in container
         if isinstance(container, (set, frozenset)):
             return item in container
+        if isinstance(container, list) and len(container) > 32 and all(type(v) is int for v in container) \
+                and (is_sym(item) and z3.is_int(item) or isinstance(item, int)):
+            lo, hi = min(container), max(container)
+            if hi - lo + 1 == len(set(container)):
+                # membership in a contiguous block of integers
+                return zand(self.cmp(">=", item, lo), self.cmp("<=", item, hi))
         if self.is_seq(container):
             sq = self.seq_of(st, container, node)
             if sq.items is None:
